@@ -1,4 +1,5 @@
 """C07 — Commands are atomic, serialised per entity and completely audited."""
+import shutil
 import vlib
 
 RULE = ("stream aggstore, two parts. sequential: seeded histories against AggregateStore<Reg> / WalStore<Bag> (both back-ends) in "
@@ -9,6 +10,14 @@ RULE = ("stream aggstore, two parts. sequential: seeded histories against Aggreg
         "in the OBSERVED lock-acquisition order (every result must be reproduced), the per-entity lock/storage event log must be "
         "well bracketed, every acknowledged command must be stored exactly once (audit_exact); a case is one history / one "
         "concurrent run; distinct_nontrivial counts distinct (op kind, model branch) pairs")
+
+
+def private_kmodel(ctx):
+    """Other checks relink lean/.lake/build/bin/kmodel while this one runs: work on a copy taken under the lake lock."""
+    dst = ctx.work / "kmodel"
+    with vlib.Lock("lake"):
+        shutil.copy2(vlib.KMODEL, dst)
+    vlib.KMODEL = dst
 
 
 def sig(case, idx, verdict):
@@ -22,6 +31,7 @@ def sig(case, idx, verdict):
 def check(ctx):
     vlib.prove(ctx, ["KrillModel.Props.C07"])
     found = False
+    private_kmodel(ctx)
     if vlib.build_harness(ctx, ["aggstore"]):
         n, length = (600, 15) if ctx.tier == "quick" else (20000, 30)
         found = vlib.generic_stateful_stream(ctx, "aggstore", "aggstore C07", n, length, sig)
